@@ -23,7 +23,7 @@ def W0 : World := fun r =>
   match r with
   | 1 => ⟨.key 0, 449, [116]⟩
   | 2 => ⟨.pn 1, 557, []⟩
-  | 3 => ⟨.claim 1 2 .set (.indexed 0) (.str 1) 1000, 726, []⟩
+  | 3 => ⟨.claim 1 2 .set (.indexed 0) (.str 1) 1000 0, 726, []⟩
   | 4 => ⟨.del 1 2 2000, 675, []⟩
   | 5 => ⟨.opaque, 40, []⟩
   | 6 => ⟨.opaque, 50, []⟩
